@@ -297,6 +297,12 @@ class MetaMonitor(Monitor):
                 self.V('partial-keyword-kind', 'keyword %r bound by the partial is %s, not keyword-only' % (k, KIND_OF[r.kind]), w, rp)
             elif not (r.default is v or safe_eq(r.default, v)):
                 self.V('partial-keyword-default', 'default of %r is %r, not the bound value %r' % (k, r.default, v), w, rp)
+            else:
+                # the bound keyword still stands for the parameter of that name: it keeps what was annotated there
+                c = sig.parameters.get(k)
+                if c is not None and not (r.annotation is c.annotation or safe_eq(r.annotation, c.annotation)):
+                    self.V('partial-keyword-annotation-changed', 'binding %r by keyword changed its annotation from %r to %r' % (
+                        k, c.annotation, r.annotation), w, rp)
         for r in value.parameters.values():
             c = sig.parameters.get(r.name)
             if c is None or r.name in (named or {}):
